@@ -12,5 +12,9 @@ fi
 if ! INSTR_FLAGS=-wire-only lib/instr_build.sh harness/c17 "$w/bin-race" -race -gcflags=all=-d=checkptr=0 2> "$w/build2.log"; then
   cat "$w/build2.log" >&2; echo "TOOL-ERROR: race build failed" >&2; exit 2
 fi
+# borrowed phase: C14's catalogue-log part
+if ! INSTR_REUSE=1 lib/instr_build.sh harness/c14 "$w/bin-c14" 2> "$w/build3.log"; then
+  cat "$w/build3.log" >&2; echo "TOOL-ERROR: instrumented build failed" >&2; exit 2
+fi
 { flock -u 9 && exec 9>&-; } 2>/dev/null  # the build is done: release the shared lock on /repo's working tree (.work/repo.lock)
-VERIF_C17_RACE="$w/bin-race" exec "$w/bin" "$@"
+VERIF_C17_RACE="$w/bin-race" VERIF_BIN_C14="$w/bin-c14" exec "$w/bin" "$@"
